@@ -91,6 +91,81 @@ func (revStrCodec) Append(data []byte, ptr unsafe.Pointer, tag []byte) []byte {
 	return append(data, revBytes(s)...)
 }
 
+// dblStrCodec is another user's codec for MarkStr whose encoding is twice as long as the string
+// (every byte written twice); enumStrCodec writes the strings of a fixed list as their position in
+// the list, a varint. With either, the number of bytes a field takes is not the length of the
+// string it decodes to (round 12: k19).
+type dblStrCodec struct{}
+
+func (dblStrCodec) Omit(ptr unsafe.Pointer) bool { return len(*(*string)(ptr)) == 0 }
+func (dblStrCodec) WireType() plenccore.WireType { return plenccore.WTLength }
+func (dblStrCodec) Descriptor() plenccodec.Descriptor {
+	return plenccodec.Descriptor{Type: plenccodec.FieldTypeString}
+}
+func (dblStrCodec) New() unsafe.Pointer { return unsafe.Pointer(new(MarkStr)) }
+func (dblStrCodec) Read(data []byte, ptr unsafe.Pointer, wt plenccore.WireType) (int, error) {
+	if len(data)%2 != 0 {
+		return 0, fmt.Errorf("dblStrCodec: odd length %d", len(data))
+	}
+	b := make([]byte, len(data)/2)
+	for i := range b {
+		b[i] = data[2*i]
+	}
+	*(*string)(ptr) = string(b)
+	return len(data), nil
+}
+func (dblStrCodec) Size(ptr unsafe.Pointer, tag []byte) int {
+	l := 2 * len(*(*string)(ptr))
+	if len(tag) != 0 {
+		l += len(tag) + plenccore.SizeVarUint(uint64(l))
+	}
+	return l
+}
+func (dblStrCodec) Append(data []byte, ptr unsafe.Pointer, tag []byte) []byte {
+	s := *(*string)(ptr)
+	if len(tag) != 0 {
+		data = append(data, tag...)
+		data = plenccore.AppendVarUint(data, uint64(2*len(s)))
+	}
+	for i := 0; i < len(s); i++ {
+		data = append(data, s[i], s[i])
+	}
+	return data
+}
+
+var enumStrings = []string{"", "pending", "a", "shipped-and-delivered-to-the-customer", "x", "cancelled", "returned", "zz"}
+
+type enumStrCodec struct{}
+
+func (enumStrCodec) Omit(ptr unsafe.Pointer) bool { return len(*(*string)(ptr)) == 0 }
+func (enumStrCodec) WireType() plenccore.WireType { return plenccore.WTVarInt }
+func (enumStrCodec) Descriptor() plenccodec.Descriptor {
+	return plenccodec.Descriptor{Type: plenccodec.FieldTypeUint}
+}
+func (enumStrCodec) New() unsafe.Pointer { return unsafe.Pointer(new(MarkStr)) }
+func (enumStrCodec) pos(ptr unsafe.Pointer) uint64 {
+	for i, e := range enumStrings {
+		if e == *(*string)(ptr) {
+			return uint64(i)
+		}
+	}
+	return 0
+}
+func (enumStrCodec) Read(data []byte, ptr unsafe.Pointer, wt plenccore.WireType) (int, error) {
+	v, n := plenccore.ReadVarUint(data)
+	if n <= 0 || v >= uint64(len(enumStrings)) {
+		return 0, fmt.Errorf("enumStrCodec: bad value")
+	}
+	*(*string)(ptr) = enumStrings[v]
+	return n, nil
+}
+func (c enumStrCodec) Size(ptr unsafe.Pointer, tag []byte) int {
+	return len(tag) + plenccore.SizeVarUint(c.pos(ptr))
+}
+func (c enumStrCodec) Append(data []byte, ptr unsafe.Pointer, tag []byte) []byte {
+	return plenccore.AppendVarUint(append(data, tag...), c.pos(ptr))
+}
+
 // embStrCodec is a user's codec written the way the null package writes its own: it embeds the
 // library's StringCodec (and with it every method it does not override, WithInterning included) and
 // changes the bytes: here they are written back to front.
@@ -165,11 +240,20 @@ func c19OwnCodec(c *core.Ctx, idx int) {
 	cfg := instCfgs()[idx%4]
 	name := cfgName(cfg)
 	p := instNew(cfg)
-	p.RegisterCodec(markStrT, revStrCodec{})
 	vocab := c19Vocab(r)
+	ownStr := func(fresh *int) MarkStr { return MarkStr(c19Str(r, vocab, fresh)) }
+	switch (idx / 4) % 3 {
+	case 0:
+		p.RegisterCodec(markStrT, revStrCodec{})
+	case 1:
+		p.RegisterCodec(markStrT, dblStrCodec{})
+	default:
+		p.RegisterCodec(markStrT, enumStrCodec{})
+		ownStr = func(*int) MarkStr { return MarkStr(enumStrings[r.IntN(len(enumStrings))]) }
+	}
 	fresh := 0
 	for op := 0; op < 60; op++ {
-		a := c19OwnIntern{A: MarkStr(c19Str(r, vocab, &fresh)), B: c19Str(r, vocab, &fresh), C: MarkStr(c19Str(r, vocab, &fresh))}
+		a := c19OwnIntern{A: ownStr(&fresh), B: c19Str(r, vocab, &fresh), C: ownStr(&fresh)}
 		b := c19OwnPlain{A: a.A, B: a.B, C: a.C}
 		da, err1, pn1 := marshal(p, nil, &a)
 		db, err2, pn2 := marshal(p, nil, &b)
